@@ -7,6 +7,7 @@ package main
 
 import (
 	"context"
+	"fmt"
 	"encoding/json"
 	"os"
 	"sync"
@@ -25,6 +26,7 @@ type HammerObs struct {
 	Corrupt int64 `json:"corrupt"` // undecodable, truncated or mixed
 	Alien   int64 `json:"alien"`   // a complete bundle, but one stored under the OTHER url
 	Stores  int64 `json:"stores"`
+	Stale   int64 `json:"stale"` // own-url writers: a read that started after the writer's own store had returned answered another (older) bundle
 	Panic   bool  `json:"panic"`
 }
 
@@ -114,6 +116,68 @@ func runCRLHammer() int {
 			readers[r].Stores = atomic.LoadInt64(&stores)
 			in, _ := json.Marshal(map[string]interface{}{"round": round, "reader": r})
 			must(enc.Encode(traceLine{ID: round*100 + r, Variant: "hammer", In: in, Obs: readers[r]}))
+			n++
+		}
+	}
+	// many writers at once on ONE cache object, each the only writer of a URL of its own: a store that has returned is what the
+	// writer's next read answers (or, at worst, a miss) - never the bundle of an earlier store, however many stores are in flight
+	{
+		root, err := os.MkdirTemp(*flagScratch, "hammer-own")
+		must(err)
+		cache, err := crl.NewFileCache(root)
+		must(err)
+		const writers = 12
+		for g := 0; g < 4; g++ {
+			for j := 1; j <= 40; j++ {
+				jobBundle(fmt.Sprintf("w%d", g+1), j, 0)
+			}
+		}
+		var stop int32
+		var wg sync.WaitGroup
+		own := make([]HammerObs, writers)
+		for g := 0; g < writers; g++ {
+			wg.Add(1)
+			go func(g int) {
+				defer wg.Done()
+				w, url, o := fmt.Sprintf("w%d", g%4+1), fmt.Sprintf("http://crl.verif.example/own/%d.crl", g), &own[g]
+				for j := 1; atomic.LoadInt32(&stop) == 0 && j <= 40; j++ {
+					var serr error
+					var res ResObsC
+					p, _ := guarded(func() {
+						if serr = cache.Set(context.Background(), url, jobBundle(w, j, 0)); serr == nil {
+							res = doGet(cache, url)
+						}
+					})
+					if p {
+						o.Panic = true
+					}
+					if serr != nil || p {
+						continue
+					}
+					o.Stores++
+					o.Reads++
+					switch {
+					case res.Kind == "miss":
+						// (Fresh of CRLCache.tla: nor a miss - nobody else touches this URL and the bundle is far from expiry)
+						o.Misses++
+						o.Stale++
+					case res.Kind == "hit" && res.W == w && res.J == j:
+						o.Hits++
+					case res.Kind == "hit":
+						o.Hits++
+						o.Stale++
+					default:
+						o.Corrupt++
+					}
+				}
+			}(g)
+		}
+		time.AfterFunc(20*time.Second, func() { atomic.StoreInt32(&stop, 1) })
+		wg.Wait()
+		os.RemoveAll(root)
+		for g := range own {
+			in, _ := json.Marshal(map[string]interface{}{"round": "own-urls", "writer": g})
+			must(enc.Encode(traceLine{ID: 9000 + g, Variant: "hammer-own", In: in, Obs: own[g]}))
 			n++
 		}
 	}
